@@ -225,6 +225,7 @@ func (v *simVFS) Create(dir, name string, size uint64) (types.WritableFile, erro
 	ino, ok := v.disk.Create(name, size)
 	if !ok {
 		v.g.ex.probes.Add("create_collision", 1)
+		v.g.ex.violate("segment-id-unique", "create-collided", "Create(%s) collided with an existing file: a segment file name was handed out twice", name)
 		return nil, &os.PathError{Op: "open", Path: name, Err: syscall.EEXIST}
 	}
 	v.g.ex.noteCreate(name)
@@ -401,6 +402,10 @@ func (f *simFile) ReadAt(p []byte, off int64) (int, error) {
 	}
 	n, eof := f.ino.ReadAt(p, off)
 	raceRead()
+	if f.g.ex.cfg.PostYield {
+		// the read has filled p; the caller has not looked at it yet
+		f.g.sim.MaybeYield("seam:ReadAt.done")
+	}
 	if eof {
 		return n, io.EOF
 	}
